@@ -151,6 +151,21 @@ Proof.
     rewrite (IH tl ltac:(discriminate) Hrest). reflexivity.
 Qed.
 
+Lemma tag_fields n : 0 <= n < 2^19 ->
+  let tag := 16 + n * 32 in
+  (tag mod 2^32 = tag) /\
+  (tag mod 256 + 256 * ((tag / 256) mod 256) + 65536 * ((tag / 65536) mod 256) = tag) /\
+  (tag mod 2 = 0) /\ ((tag / 2) mod 8 = 0) /\ ((tag / 16) mod 2 = 1) /\ (tag / 32 = n).
+Proof.
+  intros Hn tag. unfold tag. change (2^19) with 524288 in Hn. change (2^32) with 4294967296.
+  repeat split; lia.
+Qed.
+
+Lemma dim_fields w : 1 <= w < 16384 ->
+  ((w mod 16384) mod 256 + 256 * (((w mod 16384) / 256) mod 256)) mod 16384 = w /\
+  (((w mod 16384) / 256) mod 256) / 64 = 0.
+Proof. intros Hw. rewrite (Z.mod_small w 16384) by lia. split; lia. Qed.
+
 (** What is written is what a reader gets back: header fields, partition 0 and
     every token partition, byte for byte — for every size the guard lets through. *)
 Theorem emit_parse_roundtrip w h part0 parts bs :
@@ -164,23 +179,12 @@ Proof.
   destruct (sized_parts_ok parts) eqn:Hok; cbn [negb]; [|discriminate].
   intros [= <-]. unfold assemble, parse_frame.
   assert (Hl0 := len_nonneg part0).
-  (* header *)
+  destruct (tag_fields (len part0) (conj Hl0 Hp0)) as (T0 & T1 & T2 & T3 & T4 & T5).
+  destruct (dim_fields w Hw) as [W1 W2]. destruct (dim_fields h Hh) as [H1 H2].
+  clear Hw Hh Hp0 Hl0.
   unfold frame_tag, pic_header, le16. cbn [app parse_hdr].
-  set (tag := (16 + len part0 * 32) mod 2 ^ 32).
-  assert (Htag : tag = 16 + len part0 * 32).
-  { unfold tag. apply Z.mod_small. change (2^19) with 524288 in Hp0. change (2^32) with 4294967296. lia. }
-  assert (Hbits : tag mod 256 + 256 * ((tag / 256) mod 256) + 65536 * ((tag / 65536) mod 256) = tag).
-  { rewrite Htag. change (2^19) with 524288 in Hp0. lia. }
-  rewrite Hbits, Htag. cbn [Z.eqb Pos.eqb andb negb bind].
-  replace ((16 + len part0 * 32) mod 2 =? 0) with true by (symmetry; apply Z.eqb_eq; lia).
-  replace (((16 + len part0 * 32) / 2) mod 8) with 0 by lia.
-  replace (((16 + len part0 * 32) / 16) mod 2 =? 1) with true by (symmetry; apply Z.eqb_eq; lia).
-  replace ((16 + len part0 * 32) / 32) with (len part0) by lia.
-  replace (((w mod 16384) mod 256 + 256 * (((w mod 16384) / 256) mod 256)) mod 16384) with w by lia.
-  replace ((((w mod 16384) / 256) mod 256) / 64) with 0 by lia.
-  replace (((h mod 16384) mod 256 + 256 * (((h mod 16384) / 256) mod 256)) mod 16384) with h by lia.
-  replace ((((h mod 16384) / 256) mod 256) / 64) with 0 by lia.
-  cbn [h_part0_len].
+  rewrite T0, T1, T2, T3, T4, T5, W1, W2, H1, H2.
+  cbn [Z.eqb Pos.eqb andb negb bind h_part0_len].
   rewrite len_app.
   destruct (Z.ltb_spec (len part0 + len (size_table parts ++ concat parts)) (len part0));
     [pose proof (len_nonneg (size_table parts ++ concat parts)); lia|].
@@ -216,18 +220,12 @@ Proof.
 Qed.
 
 (** The pinned code wrote a frame whose header lies about partition 0 as soon as
-    it reaches 2^19 bytes: the reader sees length 0. *)
-Theorem pinned_emit_truncates_part0 :
-  exists part0, len part0 = 2^19 /\
-    forall w h parts bs, pinned_emit_frame w h part0 parts = Ok bs ->
-      firstn 3 bs = [16; 0; 0].
+    it reaches 2^19 bytes: the tag is 10 00 00, i.e. the reader sees length 0. *)
+Theorem pinned_emit_truncates_part0 : forall w h part0 parts bs,
+  len part0 = 2^19 -> pinned_emit_frame w h part0 parts = Ok bs -> firstn 3 bs = [16; 0; 0].
 Proof.
-  exists (repeat 0 (Z.to_nat (2^19))). split.
-  - unfold len. rewrite repeat_length. rewrite Z2Nat.id; [reflexivity|discriminate].
-  - intros w h parts bs [= <-]. unfold assemble, frame_tag.
-    assert (Hl : len (repeat 0 (Z.to_nat (2 ^ 19))) = 2^19).
-    { unfold len. rewrite repeat_length. rewrite Z2Nat.id; [reflexivity|discriminate]. }
-    rewrite Hl. reflexivity.
+  intros w h part0 parts bs Hl [= <-]. unfold assemble, frame_tag. rewrite Hl.
+  cbn [app firstn]. reflexivity.
 Qed.
 
 (** Non-vacuity: a two-partition frame round-trips. *)
@@ -235,3 +233,38 @@ Example conform_example :
   parse_frame 2 (match emit_frame 17 33 [1; 2; 3] [[4; 5]; [6]] with Ok b => b | _ => [] end)
   = Ok (mk_hdr true 0 true 3 17 0 33 0, [1; 2; 3], [[4; 5]; [6]]).
 Proof. vm_compute. reflexivity. Qed.
+
+(* ------------------------------------------------------------------ *)
+(** VP8L stream header (5 bytes): signature 0x2f, then 14-bit width-1, 14-bit
+    height-1, alpha-is-used bit, 3-bit version, LSB first — as written by
+    lossless encodeStream through the bit writer and as alphaVP8LStream rebuilds
+    it for ALPH payloads. *)
+Definition vp8l_header (w h : Z) (alpha : bool) : list Z :=
+  47 :: le32 ((w - 1) + (h - 1) * 16384 + (if alpha then 268435456 else 0)).
+
+Definition parse_vp8l_header (bs : list Z) : Res (Z * Z * bool * Z) :=
+  match bs with
+  | sig :: b0 :: b1 :: b2 :: b3 :: _ =>
+      if negb (sig =? 47) then Err 1 else
+      let v := b0 + 256 * b1 + 65536 * b2 + 16777216 * b3 in
+      Ok (v mod 16384 + 1, (v / 16384) mod 16384 + 1, (v / 268435456) mod 2 =? 1, v / 536870912)
+  | _ => Err 2
+  end.
+
+Theorem vp8l_header_roundtrip w h alpha tl :
+  1 <= w <= 16384 -> 1 <= h <= 16384 ->
+  parse_vp8l_header (vp8l_header w h alpha ++ tl) = Ok (w, h, alpha, 0).
+Proof.
+  intros Hw Hh. unfold vp8l_header, parse_vp8l_header, le32. cbn [app].
+  set (v := w - 1 + (h - 1) * 16384 + (if alpha then 268435456 else 0)).
+  assert (Hv : 0 <= v < 536870912) by (unfold v; destruct alpha; lia).
+  cbn [Z.eqb Pos.eqb negb].
+  replace (v mod 256 + 256 * ((v / 256) mod 256) + 65536 * ((v / 65536) mod 256) +
+           16777216 * ((v / 16777216) mod 256)) with v by lia.
+  assert (H1 : v mod 16384 + 1 = w) by (unfold v; destruct alpha; lia).
+  assert (H2 : (v / 16384) mod 16384 + 1 = h) by (unfold v; destruct alpha; lia).
+  assert (H3 : ((v / 268435456) mod 2 =? 1) = alpha).
+  { unfold v. destruct alpha; [apply Z.eqb_eq|apply Z.eqb_neq]; lia. }
+  assert (H4 : v / 536870912 = 0) by lia.
+  rewrite H1, H2, H3, H4. reflexivity.
+Qed.
